@@ -11,7 +11,7 @@ import (
 	"verif/checker/ssax"
 )
 
-func init() { Registry["C10"] = Spec{Run: runC10} }
+func init() { Registry["C10"] = Spec{Run: runC10, Packages: []string{"par"}} }
 
 func runC10(ctx *core.Ctx) {
 	ctx.Trusted = append(ctx.Trusted, "go/types, go/ssa", "sync.Map.LoadOrStore stores at most one value per key; sync/atomic load/store give acquire/release ordering (Go memory model); sync.Mutex semantics")
